@@ -172,6 +172,22 @@ def call_gen(a):
         if "sgno" in kw and npseed % 3 == 0:
             kw["sgno"] = np.int64(kw["sgno"])
         cell = [list, lambda c: np.array(c, dtype=float)][npseed % 2](cell)      # documented: a list; arrays are what callers pass
+        # a related but different request first, in the same process, result discarded: a memo keyed too coarsely (without sintlmin,
+        # without the group, without output_stl ...) then answers the real request with the list of the earlier one
+        pre = (npseed // 7) % 6
+        try:
+            if pre == 1:
+                getattr(mod, func)(cell, 0.0 if smin > 0 else 0.6 * smax, smax, output_stl=ostl, **kw)
+            elif pre == 2:
+                getattr(mod, func)(cell, smin, 1.25 * smax, output_stl=ostl, **kw)
+            elif pre == 3:
+                getattr(mod, func)(cell, smin, smax, output_stl=not ostl, **kw)
+            elif pre == 4:
+                getattr(mod, func)([x * 1.0000001 if j < 3 else x for j, x in enumerate(list(cell))], smin, smax, output_stl=ostl, **kw)
+            elif pre == 5 and "sgno" in kw:
+                getattr(mod, func)(cell, smin, 0.5 * smax, output_stl=ostl, sgno=1)
+        except Exception:
+            pass
         H = getattr(mod, func)(cell, smin, smax, output_stl=ostl, **kw)
         return np.asarray(H, dtype=float).tolist()
     except Exception as ex:
